@@ -759,6 +759,7 @@ REF_FCN static REF_STATUS ref_smooth_no_geom_edge_improve(REF_GRID ref_grid,
   REF_DBL backoff, quality, min_ratio, max_ratio, tet_quality;
   REF_INT ixyz;
   REF_BOOL allowed, geom_edge;
+  REF_INT n_ids, ids[2];
   REF_STATUS interp_status;
   REF_INT interp_guess;
   REF_INTERP ref_interp = ref_grid_interp(ref_grid);
@@ -776,6 +777,11 @@ REF_FCN static REF_STATUS ref_smooth_no_geom_edge_improve(REF_GRID ref_grid,
   RSS(ref_geom_is_a(ref_grid_geom(ref_grid), node, REF_GEOM_EDGE, &geom_edge),
       "edge check");
   if (geom_edge) return REF_SUCCESS;
+
+  /* don't move nodes that separate edge ids */
+  RXS(ref_cell_id_list_around(ref_grid_edg(ref_grid), node, 2, &n_ids, ids),
+      REF_INCREASE_LIMIT, "count edge ids");
+  if (n_ids > 1) return REF_SUCCESS;
 
   RSS(ref_smooth_edge_neighbors(ref_grid, node, &node0, &node1), "edge nodes");
   if (REF_EMPTY == node1) return REF_SUCCESS;
